@@ -411,7 +411,8 @@ Step ==
          \* stepped in between = its items when it runs alone against the same answers
          ELSE IF r.ev = "solo" THEN (IF r.same THEN Quiet ELSE Flag("sched.differ"))
          \* C15, differential: the items of the static iteration against the items of the first dynamic iterator
-         ELSE IF r.ev = "static_dynamic" THEN (IF StaticAgrees(r.sseq, r.dseq) THEN Quiet ELSE Flag("static.differ"))
+         \* (a program that draws random numbers is excluded: the property speaks of everything but the drawn values)
+         ELSE IF r.ev = "static_dynamic" THEN (IF UsesRandom(ct.prog) \/ StaticAgrees(r.sseq, r.dseq) THEN Quiet ELSE Flag("static.differ"))
          ELSE IF skip THEN Quiet
          ELSE IF r.ev = "try_iter" THEN TryIterLine(r)
          ELSE IF r.ev = "next" THEN
